@@ -67,7 +67,7 @@ func init() {
 		ID: "C17",
 		Harnesses: []harnessSpec{
 			{Pkg: "bklr", Func: "HarnessC17_required", Tiers: "qt", Covers: []string{"req.empty", "req.nonempty"},
-				Bound: "one document, maps over {a,b} of depth<=2 with lists<=2 (quick) / depth<=3 with lists<=1 (thorough); leaves: $required, any scalar, or one 9-byte string that the solver may make equal to the marker ($-free otherwise)"},
+				Bound: "one document, maps over {a,b} of depth<=2 with lists<=2 (quick) / depth<=3 with lists<=1 (thorough); leaves: $required, any scalar (thorough: 7 or a fixed string), or one 9-byte string that the solver may make equal to the marker ($-free otherwise)"},
 			{Pkg: "bklr", Func: "HarnessC17_layers", Tiers: "qt", Covers: []string{"req.empty", "req.nonempty", "layers.overridden"},
 				Bound: "two layers through Parser.MergeDocument: base depth<=2 with markers, upper layer overriding any subset of marker leaves / appending to lists"},
 		},
